@@ -100,4 +100,27 @@ PROPS = {
             rapid("c19", "TestPropSearchPermutations", quick=(1200, 4), thorough=(20000, 6)),
         ],
     },
+    "C01": {
+        "level": "exploration",
+        "rule": "a line of 1..5 generated values (String with byte classes empty/atom/specials/CRLF/NUL/UTF-8/invalid UTF-8/lengths 4095,4096,"
+                "4097,8193; explicit Quoted; Atom; Mailbox incl. INBOX casings, '&', controls, long names; Flag; MailboxAttr; Number; Number64; "
+                "ModSeq; Seq/UID sets incl. '*' and '$'; NIL; nested lists to depth 3; server literals) is encoded by an imapwire.Encoder "
+                "of one side under a drawn mode (QuotedUTF8 x LiteralMinus x LiteralPlus x continuation granted/cancelled/absent) and "
+                "decoded by the peer side's Decoder through the matching Expect* calls (4 string entry points); decoded == expected under "
+                "an independent canonicalisation table, Err()==nil, 0 unread bytes; the emitted bytes are framed by kit/tok and judged "
+                "against the mode (no CR/LF/NUL in quoted, 8-bit only with UTF-8 quoting, {n+} only with LITERAL+ or LITERAL- and n<=4096, "
+                "exact literal counts). Unrepresentable values (empty sets, malformed flags/attributes, negative Number64, sync literal "
+                "without continuation) must yield an error and no complete line. Non-trivial: the line contains a string that is not "
+                "plain alphanumeric, or a list / set / flag / attribute; distinct by hash of (mode, values).",
+        "assumptions": ["explicit Encoder.Quoted is only given strings that are legal in a quoted string under the mode (it is the non-validating entry point)",
+                        "non-ASCII flags are only required to round-trip when accepted"],
+        "units": [
+            plain("c01", "TestReplayRegressions"),
+            plain("c01", "TestReplayDepth"),
+            rapid("c01", "TestPropRoundTrip", quick=(10000, 4), thorough=(150000, 12)),
+            rapid("c01", "TestPropRefusal", quick=(3000, 1), thorough=(30000, 2)),
+            rapid("c01", "TestPropForeignForms", quick=(10000, 2), thorough=(150000, 4)),
+            fuzz("c01", "FuzzRoundTrip", secs=150),
+        ],
+    },
 }
